@@ -345,6 +345,21 @@ func checkC04(c *Check, p *Program) {
 			if !ok || d != 255 {
 				continue
 			}
+			// the repetition test itself must be reached for every expected number: a comparison of the
+			// expected number (or the received one) with a constant on the way there carves out values
+			// (after the wrap, expected == 0 and the repetition is 255)
+			narrowed := ""
+			for _, f := range factsAt(b) {
+				for _, pr := range [][2]ssa.Value{{f.X, f.Y}, {f.Y, f.X}} {
+					if _, isK := constInt(pr[1]); !isK {
+						continue
+					}
+					if isExpected(pr[0]) || isLoadOf(stripAllConv(pr[0]), reqSeq) {
+						narrowed = fmt.Sprintf("the repetition test is only reached when %s %s %s", describe(f.X), f.Op, describe(f.Y))
+					}
+				}
+			}
+			c.Decide(narrowed == "", "C04.R3", hn+" repetition test covers every expected number", p.InstrPos(iff), "no constant comparison of the counters on the way to the test", narrowed+": for the other values a repeated request is not acknowledged again")
 			min, max := pathCountAssuming(s, isSockSend, nil, condAssumption(iff.Cond, si == 0))
 			c.Decide(min == 1 && max == 1, "C04.R3", hn+" previous number is acknowledged again", p.InstrPos(iff), "every path from the expected-1 edge acknowledges once", fmt.Sprintf("the repetition edge acknowledges between %d and %d times", min, max))
 			_, maxD := pathCount(s, isDeliver, nil)
